@@ -312,11 +312,18 @@ fn hist_json(h: &[Op]) -> Value {
 /// over a small menu; after every edit every module is formatted and hovered at a few positions
 /// (formatting prints every identifier: a string the collector freed while it is still referenced
 /// aborts the request).
-fn big_workspace_histories(n_initial: usize, menu_ops: &[usize], depth: usize, violations: &mut Vec<(String, String, Value)>) -> (u64, u64) {
+fn big_workspace_histories(n_initial: usize, functions_per_module: usize, menu_ops: &[usize], depth: usize, violations: &mut Vec<(String, String, Value)>) -> (u64, u64) {
   let module_text = |i: usize, variant: usize| -> String {
     let mut t = format!("class ClassNumber{i}WithAVeryLongName {{\n");
-    for j in 0..100 {
-      t.push_str(&format!("  function functionNumber{j}OfClassNumber{i}Variant{variant}(): int = {j}\n"));
+    for j in 0..functions_per_module {
+      if j % 10 == 0 {
+        // names that live only inside a body: a local, a string literal, a comment, a lambda parameter
+        t.push_str(&format!(
+          "  function functionNumber{j}OfClassNumber{i}Variant{variant}(): int = {{\n    // commentNumber{j}OfClassNumber{i}Variant{variant}\n    let localNumber{j}OfClassNumber{i}Variant{variant} = \"literalNumber{j}OfClassNumber{i}Variant{variant}\";\n    let lambdaNumber{j}OfClassNumber{i}Variant{variant} = (parameterNumber{j}OfClassNumber{i}Variant{variant}: int) -> parameterNumber{j}OfClassNumber{i}Variant{variant} + {j};\n    lambdaNumber{j}OfClassNumber{i}Variant{variant}({j})\n  }}\n"
+        ));
+      } else {
+        t.push_str(&format!("  function functionNumber{j}OfClassNumber{i}Variant{variant}(): int = {j}\n"));
+      }
     }
     t.push_str("}\n");
     t
@@ -387,7 +394,7 @@ fn big_workspace_histories(n_initial: usize, menu_ops: &[usize], depth: usize, v
             if let Err(e) = q {
               return Some((
                 format!("big-workspace:{e}"),
-                format!("{n_initial} modules: after {} (step {step}) a request on {name} panicked: {e}", h.iter().map(|o| menu[*o]).collect::<Vec<_>>().join(" . ")),
+                format!("{n_initial} modules of {functions_per_module} functions: after {} (step {step}) a request on {name} panicked: {e}", h.iter().map(|o| menu[*o]).collect::<Vec<_>>().join(" . ")),
                 json!({"big_workspace_history": h.iter().map(|o| menu[*o]).collect::<Vec<_>>(), "initial_modules": n_initial}),
               ));
             }
@@ -435,11 +442,15 @@ fn main() {
 
   // the big workspace (GC slices overlap): all histories of 2 (quick) / 3 (thorough) edits
   let mut big_violations = vec![];
-  let (mut big_histories, mut big_queries) = big_workspace_histories(100, &[0, 1, 2, 3, 4, 5, 6], if run.quick() { 2 } else { 3 }, &mut big_violations);
+  let (mut big_histories, mut big_queries) = big_workspace_histories(100, 100, &[0, 1, 2, 3, 4, 5, 6], if run.quick() { 2 } else { 3 }, &mut big_violations);
   // a workspace of 150 modules (mark cycles span two edits from the start): change one / change all / add one
-  let (h150, q150) = big_workspace_histories(150, &[1, 2, 3], if run.quick() { 2 } else { 3 }, &mut big_violations);
+  let (h150, q150) = big_workspace_histories(150, 100, &[1, 2, 3], if run.quick() { 2 } else { 3 }, &mut big_violations);
   big_histories += h150;
   big_queries += q150;
+  // many modules with few names each: a sweep finishes within one or two edits
+  let (h150s, q150s) = big_workspace_histories(150, 2, &[0, 1, 2, 3, 4, 5, 6], if run.quick() { 3 } else { 4 }, &mut big_violations);
+  big_histories += h150s;
+  big_queries += q150s;
   for (sig, msg, payload) in big_violations {
     run.violation(&sig, &msg, payload);
   }
